@@ -2,9 +2,11 @@ package render
 
 import (
 	"bytes"
+	"errors"
 	"io"
 	"os"
 	"strings"
+	"syscall"
 
 	"github.com/osteele/liquid/parser"
 
@@ -154,7 +156,8 @@ func (c rendererContext) RenderFile(filename string, b map[string]any) (string, 
 		return "", c.Errorf("template files are nested more than %d deep (a template that includes itself?): %s", maxFileDepth, filename)
 	}
 	source, err := os.ReadFile(filename)
-	if err != nil && os.IsNotExist(err) {
+	// a path through a regular file (ENOTDIR) or one that is too long for the file system names no file either
+	if err != nil && (os.IsNotExist(err) || errors.Is(err, syscall.ENOTDIR) || errors.Is(err, syscall.ENAMETOOLONG)) {
 		// Is it cached?
 		if cval, ok := c.ctx.config.Cache[filename]; ok {
 			source = cval
